@@ -750,7 +750,7 @@ theorem inv_acmU {u1 u2 : ℚ} (p1 : 0 < u1) (h11 : u1 ≤ 1) (p2 : 0 < u2) :
   field_simp
   ring
 
-theorem eq_inv_form {x : ℚ} (hx : x ≠ 0) : x = 1 / (1 + (1 / x - 1)) := by
+theorem eq_inv_form (x : ℚ) : x = 1 / (1 + (1 / x - 1)) := by
   rw [show 1 + (1 / x - 1) = 1 / x by ring, one_div_one_div]
 
 /-- the total uncertainty of three operands is the uncertainty of the nested ACm fusion -/
@@ -762,8 +762,7 @@ theorem total3 {p1 p2 p3 : (Fin n → ℚ) × ℚ} (h : Good f [p1, p2, p3]) :
   have q12 := acmU_pos g1.2.pos g1.1.u_le_one g2.2.pos
   have l12 : acmU p1.2 p2.2 ≤ 1 :=
     le_trans (acmU_le_left g1.2.pos g1.1.u_le_one g2.1.hu g2.1.u_le_one) g1.1.u_le_one
-  have q := acmU_pos q12 l12 g3.2.pos
-  rw [evSum_total h, eq_inv_form (ne_of_gt q), inv_acmU q12 l12 g3.2.pos,
+  rw [evSum_total h, eq_inv_form (acmU (acmU p1.2 p2.2) p3.2), inv_acmU q12 l12 g3.2.pos,
     inv_acmU g1.2.pos g1.1.u_le_one g2.2.pos]
   simp only [List.map_cons, List.map_nil, List.sum_cons, List.sum_nil]
   congr 1; ring
